@@ -37,6 +37,7 @@ func (r *ObRun) attr(k, def string) string {
 }
 
 var verbose bool
+var nativeSearch = 3000
 
 func (r *ObRun) setup() *Ctx {
 	c := newCtx(r.Ld)
@@ -45,6 +46,7 @@ func (r *ObRun) setup() *Ctx {
 	c.maxUnroll = atoiDef(r.attr("maxunroll", ""), 5000)
 	c.feasAfter = atoiDef(r.attr("feas", ""), 0)
 	c.maxInstr = int64(atoiDef(r.attr("maxinstr", ""), 0))
+	c.cutFix = r.attr("cutfix", "")
 	c.trace = verbose
 	if ap := r.attr("allowpanic", ""); ap != "" {
 		c.allowPanic = regexp.MustCompile(ap)
@@ -143,6 +145,7 @@ func (r *ObRun) execute() (c *Ctx) {
 	st := &State{mem: mem, ghost: map[string]Value{}}
 	if c.cutSpec = parseLoopCut(r); c.cutSpec != nil {
 		c.runLoopCut(fn, st)
+		r.Obs = c.obs
 	} else {
 		outs := c.callFunction(fn, nil, nil, st, nil)
 		// a final reachability witness: some path must reach the end of the harness
@@ -177,9 +180,11 @@ func (r *ObRun) discharge(timeout time.Duration, workers int) {
 	}
 	var wg sync.WaitGroup
 	sem := make(chan struct{}, workers)
-	for _, ob := range r.Obs {
+	step := len(r.Obs)/12 + 1
+	for i, ob := range r.Obs {
 		ob := ob
 		ob.Mode = mode
+		ob.SelfCheck = i%step == 0 || i == len(r.Obs)-2 // a spread of obligations incl. the last assertion
 		wg.Add(1)
 		sem <- struct{}{}
 		to := timeout
@@ -257,10 +262,12 @@ func dischargeOne(ob *Oblig, mode string, solvers []string, timeout time.Duratio
 		if ob.Kind != "reach" {
 			g = tr.boolean(ob.Goal)
 		}
-		if err := selfCheckInt(ob, tr, selfCheckSamples, runSeed); err != nil {
-			ob.Verdict = "inconclusive"
-			ob.Note = "ENCODER SELF-CHECK FAILED: " + err.Error()
-			return
+		if ob.SelfCheck {
+			if err := selfCheckInt(ob, tr, selfCheckSamples, runSeed); err != nil {
+				ob.Verdict = "inconclusive"
+				ob.Note = "ENCODER SELF-CHECK FAILED: " + err.Error()
+				return
+			}
 		}
 		if g != nil {
 			if g.IsTrue() {
